@@ -285,12 +285,12 @@ func c19Exec(sh *c19Shared, c c19Call) (res string) {
 		return fmt.Sprintf("%q/%s/%d/%s/%v/%s/%q/%s/%v/%s/%s", s, c19ErrKinds(e1), i, c19ErrKinds(e2), b, c19ErrKinds(e3), by, c19ErrKinds(e4), f, c19ErrKinds(e5), c19ErrKinds(sub.Null()))
 	case "compile":
 		// compile another program in the shared context while others use its values
-		src := fmt.Sprintf("x%d: %d + 1\ny: {fresh%s%d: x%d}\n", c.Opt, c.Opt, strings.Map(c19Alnum, c.Arg), c.Opt, c.Opt)
+		src := fmt.Sprintf("let L = %d\nx%d: L + 1\ny: {let L = x%d\nfresh%s%d: L}\n", c.Opt, c.Opt, c.Opt, strings.Map(c19Alnum, c.Arg), c.Opt)
 		return c19Dump(v.Context().CompileString(src))
 	case "compileScope":
-		e := "{q: 1}"
+		e := "{let L = 1, q: L}"
 		if p := strings.TrimRight(c.Arg, "?!"); p != "" && !strings.ContainsAny(p, "#_") {
-			e = "{q: " + p + "}"
+			e = "{let L = " + p + ", q: L}"
 		}
 		return c19Dump(v.Context().CompileString(e, cue.Scope(v)))
 	case "encode":
